@@ -86,11 +86,21 @@ def observe_tree(t, mirror, other, rng):
     obs["lca"] = [[sorted(int(x) for x in leaves[i].lowest_common_ancestor(leaves[j]).get_indices())
                    for j in range(n)] for i in range(n)]
     s = tree.to_newick()
-    obs["nw"] = from_node(Tree.from_newick(s).root)
-    obs["nwNoDist"] = from_node(Tree.from_newick(tree.to_newick(include_distance=False)).root)
     labels = [f"tax{k}_x" for k in range(n)]
-    obs["nwLabels"] = from_node(Tree.from_newick(tree.to_newick(labels=labels), labels=labels).root)
-    obs["nwBlanks"] = from_node(Tree.from_newick(blanks(s, rng)).root)
+
+    def parsed(fn):
+        # a Newick string the writer emitted must parse; an exception is reported as a tree
+        # that no specification value equals (one leaf with index -99), not as a driver failure
+        try:
+            return from_node(fn().root)
+        except Exception:  # noqa: BLE001
+            return {"len": [0, 1], "idx": -99, "kids": []}
+
+    obs["nw"] = parsed(lambda: Tree.from_newick(s))
+    obs["nwNoDist"] = parsed(lambda: Tree.from_newick(tree.to_newick(include_distance=False)))
+    # labelled Newick as found in files: with blanks, tabs and line breaks around the labels
+    obs["nwLabels"] = parsed(lambda: Tree.from_newick(blanks(tree.to_newick(labels=labels), rng), labels=labels))
+    obs["nwBlanks"] = parsed(lambda: Tree.from_newick(blanks(s, rng)))
     obs["binary"] = from_node(as_binary(tree).root)
     cp = tree.copy()
     obs["copy"] = from_node(cp.root)
@@ -143,8 +153,11 @@ def observe_nj(D):
     oc, tree = call(lambda: neighbor_joining(np.array(D, dtype=float).reshape(len(D), -1)))
     if oc != "ok":
         return ["Rejected", [], [], 0, tree], {"len": [0, 1], "idx": 0, "kids": []}
-    leaves = [int(x) for x in tree.root.get_indices()]
     n = len(D)
+    if tree is None or getattr(tree, "root", None) is None:
+        # no tree at all: reported as "ok" with no leaf, which no specification value equals
+        return ["ok", [], [[[-1, 1] for _ in range(n)] for _ in range(n)], 0], {"len": [0, 1], "idx": 0, "kids": []}
+    leaves = [int(x) for x in tree.root.get_indices()]
     once = sorted(leaves) == list(range(n))
     dist = [[rat(tree.get_distance(i, j), maxden=64, tol=1e-4) if once else [-1, 1] for j in range(n)]
             for i in range(n)]
@@ -219,6 +232,8 @@ def rand_tree(rng, n, quarters=True, unary=True, max_arity=4, int_lens=False):
         node = {"len": ln(), "idx": -1, "kids": kids}
         if unary and rng.random() < 0.15:
             node = {"len": ln(), "idx": -1, "kids": [node]}
+            while rng.random() < 0.4:      # chains of single-child nodes
+                node = {"len": ln(), "idx": -1, "kids": [node]}
         nodes.append(node)
         rng.shuffle(nodes)
     root = nodes[0]
